@@ -215,6 +215,20 @@ def install(I):
             nb = bits[n:] + bits[:n]
         return [(mk_int(w, x[2], nb), st)]
 
+    @model("::div_ceil")
+    def div_ceil(I, st, a, ctx):
+        x, d = a[0], a[1]
+        if not (is_int(x) and is_int(d)):
+            return [(TOP, st)]
+        cd = int_const(d)
+        panic_ob(I, st, ctx, "div:zero", not (d[4] <= 0 <= d[5]), "div_ceil by a divisor that may be zero")
+        if cd is None or cd <= 0 or x[2]:
+            return [(top_int(x[1], x[2]), st)]
+        cx = int_const(x)
+        if cx is not None:
+            return [(const(-(-cx // cd), x[1], x[2]), st)]
+        return [(mk_int(x[1], x[2], None, -(-x[4] // cd), -(-x[5] // cd)), st)]
+
     @model("::swap_bytes", "::reverse_bits")
     def bitperm(I, st, a, ctx):
         x = a[0]
@@ -611,6 +625,55 @@ def install(I):
     def into_iter(I, st, a, ctx):
         return [(a[0], st)]
 
+    @model("Option::<T>::take", "option::Option::take", "mem::take")
+    def opt_take(I, st, a, ctx):
+        p = a[0]
+        if not is_ptr(p):
+            return NotImplemented
+        old = I.read_loc(st, (p[1], p[2], p[3], None))
+        nm = (ctx.get("term", {}).get("callee") or "")
+        if "Option" in nm or (is_agg(old) and (old[2] or "").endswith("option::Option")):
+            I.write_loc(st, (p[1], p[2], p[3], None), NONE)
+            return [(old, st)]
+        return NotImplemented
+
+    @model("mem::replace", "Option::<T>::replace", "option::Option::replace")
+    def mem_replace(I, st, a, ctx):
+        p = a[0]
+        if not is_ptr(p) or len(a) != 2:
+            return NotImplemented
+        old = I.read_loc(st, (p[1], p[2], p[3], None))
+        new = a[1]
+        if "Option" in (ctx.get("term", {}).get("callee") or ""):
+            new = some(a[1])
+        I.write_loc(st, (p[1], p[2], p[3], None), new)
+        return [(old, st)]
+
+    @model("<impl [T]>::get", "<impl [T]>::get_mut", "slice::get", "slice::get_mut")
+    def slice_get(I, st, a, ctx):
+        # s.get(i) with a usize index: Some(&s[i]) when i < len, else None (range arguments are left to the caller)
+        if len(a) != 2 or not is_int(a[1]):
+            return NotImplemented
+        sv = slice_view(I, st, a[0])
+        if sv is None or not is_int(sv[2]):
+            return NotImplemented
+        loc, start, ln, _e = sv
+        i = a[1]
+        if i[5] < ln[4]:
+            inb = True
+        elif i[4] >= ln[5]:
+            inb = False
+        else:
+            inb = None
+        s0 = int_const(start)
+        idx = i if s0 == 0 else int_binop("Add", start, i)
+        item = ptr(loc[0], loc[1], loc[2] + (("i", idx, None),), None, a[0][5] if is_ptr(a[0]) and len(a[0]) > 5 else False)
+        if inb is True:
+            return [(some(item), st)]
+        if inb is False:
+            return [(NONE, st)]
+        return [(some(item), st.fork()), (NONE, st)]
+
     @model("Iterator::zip")
     def zip_(I, st, a, ctx):
         if all(isinstance(x, tuple) and x and x[0] == "iter" for x in a[:2]) and len(a) >= 2:
@@ -664,6 +727,12 @@ def install(I):
         if not is_ptr(p):
             return NotImplemented
         v = I.read_loc(st, (p[1], p[2], p[3], None))
+        if isinstance(v, tuple) and v and v[0] == "arr" and "array::IntoIter" in (ctx.get("term", {}).get("callee_full") or ""):
+            # `[a, b].into_iter()`: the by-value array iterator, modelled as the array of the items still to come
+            if not v[1]:
+                return [(NONE, st)]
+            I.write_loc(st, (p[1], p[2], p[3], None), arr(list(v[1][1:])))
+            return [(some(v[1][0]), st)]
         if isinstance(v, tuple) and v and v[0] == "iter" and I.mode == "bv":
             # exact mode: loops are unrolled, so the iterator is stepped exactly when its length is a constant
             r = concrete_next(I, st, v)
